@@ -174,7 +174,8 @@ func (m *M) check(b, route string, a Args, pre *snapshot, r *world.Result) {
 		}
 
 		// ------------- C02: with a second factor, primary credentials only park ---------
-		if u != nil && (route == "login" || route == "otplogin" || route == "recend") {
+		// (an identity restored by the remember middleware during such a request is not the request's doing)
+		if u != nil && (route == "login" || route == "otplogin" || route == "recend") && lic != "remember" {
 			if (u.TOTPSecretKey != "" && cfg.Has("totp")) || (u.SMSPhoneNumber != "" && cfg.Has("sms")) {
 				m.violate("C02", "route:"+route, fmt.Sprintf("account %q has a second factor but a %s request alone produced a session", U, route), b)
 			}
